@@ -224,6 +224,15 @@ func (ex *Exec) Call(st *State, fn *ssa.Function, args []Val, parent *Frame) []O
 	return outs
 }
 
+func (ex *Exec) isGlobalObj(obj int) bool {
+	for _, id := range ex.globals {
+		if id == obj {
+			return true
+		}
+	}
+	return false
+}
+
 // allocatedSince: the object was allocated after the object counter stood at start and is not a package-level
 // variable (those are materialised lazily, so their ids say nothing).
 func (ex *Exec) allocatedSince(start, obj int) bool {
@@ -495,7 +504,11 @@ func (ex *Exec) globalObj(st *State, g *ssa.Global) int {
 			st.heap[id] = cv
 			ex.constObj[id] = true
 		} else if ex.sentinelErr(g) {
-			st.heap[id] = &IfaceV{Unk: true, NonNil: true}
+			name := g.Name()
+			if g.Pkg != nil {
+				name = g.Pkg.Pkg.Name() + "." + name
+			}
+			st.heap[id] = &IfaceV{Unk: true, NonNil: true, Sentinel: name}
 			ex.constObj[id] = true
 		} else if v, ok := ex.initGlobal(st, g); ok {
 			st.heap[id] = v
